@@ -136,7 +136,7 @@ def gline(host=b'', icon=None, fname=None, hwid=b'', retfull=0):
     return 'cfg g host=%s icon=%s fname=%s hwid=%s retfull=%d' % (host.hex() or '-', 'none' if icon is None else (icon.hex() or '-'),
                                                                   'none' if fname is None else (fname.hex() or '-'), hwid.hex() or '-', retfull)
 
-MTUS = [576, 577, 1500, 1500, 1500, 9216, 1492, 2000, 592, 593, 1493, 590, 591]   # incl. every boundary residue of (MTU-34) mod 20 and mod 14
+MTUS = [576, 577, 1500, 1500, 1500, 9216, 1492, 2000, 592, 593, 1493, 590, 591, 65535, 65536, 65600, 70000]   # incl. every boundary residue of (MTU-34) mod 20 and mod 14
 def rand_cfg(rng, ctx=0, mtu=None, wifi=None):
     m = mtu if mtu is not None else rng.choice(MTUS + [rng.randrange(576, 9217)])
     kw = dict(mtu=m, flags=rng.choice([0, 0x2000, 0x800, 0x2800, 0xFFFF, 1, rng.randrange(65536)]),
